@@ -28,8 +28,9 @@ rundemo() { # -> exit status of the demo run in $S
     gcc -Wall $S/_demo/demo.c -I$S/include -L$S/hwloc/.libs -lhwloc -lpthread -o $S/_demo/demo > $S/_demo/cc.log 2>&1 || { cat $S/_demo/cc.log | head -5; return 250; }
     ( cd $S && LD_LIBRARY_PATH=$S/hwloc/.libs timeout 300 $S/_demo/demo > $S/_demo/out.log 2>&1 ); return $?
   elif [ -f $d/demo.sh ]; then
+    for f in $d/demo*; do [ -f "$f" ] && [ "$(basename $f)" != demo.sh ] && sed "s#${mention:-/nonexistent-mention}#$S#g" "$f" > $S/_demo/$(basename $f); done   # helper sources next to the script
     sed "s#${mention:-/nonexistent-mention}#$S#g" $d/demo.sh > $S/_demo/demo.sh
-    ( cd $S && LD_LIBRARY_PATH=$S/hwloc/.libs HWLOC_TREE=$S timeout 300 bash $S/_demo/demo.sh > $S/_demo/out.log 2>&1 ); return $?
+    ( cd $S && LD_LIBRARY_PATH=$S/hwloc/.libs HWLOC_TREE=$S HWLOC_TOP=$S timeout 300 bash $S/_demo/demo.sh > $S/_demo/out.log 2>&1 ); return $?
   fi
   return 251
 }
